@@ -72,7 +72,10 @@ Definition lstep (s : lstate) (e : event) : option lstate :=
       then Some {| lw := w_obsolete; lmem := lmem s; guards := remove_tid t (guards s) |}
       else None
   | EStore t i x =>
-      if holds s t && (i <? length (lmem s))%nat
+      (* under the write guard; or on a node already marked obsolete (dead: its fields are
+         invisible to every reader, see obsolete_rejects) -- the implementation finishes
+         unlinking a replaced node after write_unlock_and_obsolete *)
+      if (holds s t || w_is_obsolete (lw s)) && (i <? length (lmem s))%nat
       then Some {| lw := lw s; lmem := set_nth i x (lmem s); guards := guards s |}
       else None
   | ELoad t i x =>
